@@ -355,7 +355,7 @@ pub fn run_scenario(sc: &Scenario, cfg: &RunCfg, rng: &mut Rng, keys: u64, stats
                 return res;
             }
         };
-        let opts = ExecOpts { step_budget: 2000 * ro.steps + 10_000, check_heap: cfg.check_heap, record_snaps: cfg.record_snaps };
+        let opts = ExecOpts { step_budget: 2000 * ro.steps + 10_000, check_heap: cfg.check_heap, record_snaps: cfg.record_snaps, print_hook: None };
         let mut benign_ok = true;
         if fixed_plan.map(|p| !p.is_hostile()).unwrap_or(true) {
             let (out, snaps) = exec(&loaded, &sc.args, &bplan, &opts);
